@@ -17,6 +17,7 @@ impl Compiler {
         requires gen_inv(*old(self))
         ensures
             //@VACUITY
+            sym_wf(final(self).symbols),
             block_post(*old(self), *final(self), stmts@, r is Ok),
             // the block generator meets the generator contract its callers assume (induction step)
             r is Ok ==> gen_post(*old(self), *final(self), true),
@@ -44,6 +45,7 @@ impl Compiler {
         requires gen_inv(*old(self))
         ensures
             //@VACUITY
+            sym_wf(final(self).symbols),
             r is Ok ==> is_prefix(old(self).instructions@, final(self).instructions@),
             r is Ok ==> function_post(*old(self), *final(self), name@, parameters@, body@),
             // the arm meets the generator contract it assumes of its callees (induction step)
@@ -53,7 +55,7 @@ impl Compiler {
 //@GHOST after="let pos_start_function = self.instructions.len();" let ghost s_start = *self;
 //@GHOST after="self.loop_contexts = outer_loop_contexts;" let ghost s_body = *self;
 //@GHOST after="self.change_jump_operand_at(pos_jump, to_u16(self.instructions.len())?);" let ghost s_patched = *self;
-//@LOOP 1 invariant sym_outer(s_ctx.symbols) == sym_outer(old(self).symbols).push(sym_depth(old(self).symbols)), sym_outer(self.symbols) == sym_outer(s_ctx.symbols), s_ctx.log@ == old(self).log@, s_ctx.instructions@.len() == old(self).instructions@.len() + 3, s_ctx.instructions@[old(self).instructions@.len() as int] == opcode_byte(OpCode::Jump), is_prefix(old(self).instructions@, s_ctx.instructions@), sym_contexts(s_ctx.symbols) == sym_contexts(old(self).symbols) + 1, s_ctx.loop_contexts == old(self).loop_contexts, gen_inv(s_ctx), s_ctx.last_instruction == Some(OpCode::Jump), pos_jump == old(self).instructions@.len(), forall|i: int| 0 <= i < old(self).constants@.len() ==> s_ctx.constants@[i] == old(self).constants@[i], old(self).constants@.len() <= s_ctx.constants@.len(), name@.len() > 0 ==> (symbol matches Some(sy) && sy == sym_define_symbol(old(self).symbols, name@)), name@.len() == 0 ==> symbol is None, self.instructions == s_ctx.instructions, self.last_instruction == s_ctx.last_instruction, self.loop_contexts == s_ctx.loop_contexts, self.log@ == s_ctx.log@, self.constants == s_ctx.constants, sym_contexts(self.symbols) == sym_contexts(s_ctx.symbols), sym_depth(self.symbols) == 0, sym_params(self.symbols).len() == __it.index@, forall|j: int| 0 <= j < __it.index@ ==> #[trigger] sym_params(self.symbols)[j] == parameters@[j]@,
+//@LOOP 1 invariant sym_outer(s_ctx.symbols) == sym_outer(old(self).symbols).push(sym_depth(old(self).symbols)), sym_outer(self.symbols) == sym_outer(s_ctx.symbols), s_ctx.log@ == old(self).log@, s_ctx.instructions@.len() == old(self).instructions@.len() + 3, s_ctx.instructions@[old(self).instructions@.len() as int] == opcode_byte(OpCode::Jump), is_prefix(old(self).instructions@, s_ctx.instructions@), sym_contexts(s_ctx.symbols) == sym_contexts(old(self).symbols) + 1, s_ctx.loop_contexts == old(self).loop_contexts, gen_inv(s_ctx), s_ctx.last_instruction == Some(OpCode::Jump), pos_jump == old(self).instructions@.len(), forall|i: int| 0 <= i < old(self).constants@.len() ==> s_ctx.constants@[i] == old(self).constants@[i], old(self).constants@.len() <= s_ctx.constants@.len(), name@.len() > 0 ==> (symbol matches Some(sy) && sy == sym_define_symbol(old(self).symbols, name@)), name@.len() == 0 ==> symbol is None, self.instructions == s_ctx.instructions, self.last_instruction == s_ctx.last_instruction, self.loop_contexts == s_ctx.loop_contexts, self.log@ == s_ctx.log@, self.constants == s_ctx.constants, sym_contexts(self.symbols) == sym_contexts(s_ctx.symbols), sym_depth(self.symbols) == 1, sym_wf(self.symbols), sym_params(self.symbols).len() == __it.index@, forall|j: int| 0 <= j < __it.index@ ==> #[trigger] sym_params(self.symbols)[j] == parameters@[j]@,
 //@ARM file=compiler.rs fn=compile_expression impl=Compiler arm="Expr::Function" rules="R1;R4;R11;R8[for p in parameters {=>for p in __it: parameters {]"
         proof {
             let code = self.instructions@;
@@ -69,7 +71,7 @@ impl Compiler {
             assert(self.log@ == s_body.log@);
             assert(self.log@.len() == k + body@.len());
             assert forall|j: int| 0 <= j < body@.len() implies #[trigger] self.log@[k + j].what == LogWhat::S(body@[j])
-                && self.log@[k + j].contexts == sym_contexts(old(self).symbols) + 1 && self.log@[k + j].depth == 1 by {
+                && self.log@[k + j].contexts == sym_contexts(old(self).symbols) + 1 && self.log@[k + j].depth == 2 by {
                 assert(s_body.log@[k + j].what == LogWhat::S(body@[j]));
             }
             assert(code[after - 1] == opcode_byte(OpCode::ReturnValue) || code[after - 1] == opcode_byte(OpCode::Return));
@@ -113,7 +115,7 @@ pub open spec fn function_post(pre: Compiler, post: Compiler, name: Seq<char>, p
     // the body: every statement, in order, in a FRESH function context (one more than outside), one scope deep
     &&& post.log@.len() == k + body.len()
     &&& (forall|j: int| 0 <= j < body.len() ==> #[trigger] post.log@[k + j].what == LogWhat::S(body[j])
-            && post.log@[k + j].contexts == sym_contexts(pre.symbols) + 1 && post.log@[k + j].depth == 1)
+            && post.log@[k + j].contexts == sym_contexts(pre.symbols) + 1 && post.log@[k + j].depth == 2)
     &&& (body.len() > 0 ==> post.log@[k].start == n0 + 3)
     // the body ends in a return instruction, immediately before `after`
     &&& (code[after - 1] == opcode_byte(OpCode::ReturnValue) || code[after - 1] == opcode_byte(OpCode::Return))
